@@ -734,6 +734,7 @@ pub fn parent_main(args: &Args, mode: Mode) -> ! {
     let mut images_seen: BTreeMap<String, Value> = BTreeMap::new();
     let mut outcome_counts: BTreeMap<String, u64> = BTreeMap::new();
     let mut exempt_counted = 0u64;
+    let mut digests: Vec<String> = vec![];
     let mut deferred = 0u64;
     // the parent needs the images only for C04's exemption / damaged-pack attribution
     let hooks = FHooks::install();
@@ -778,6 +779,7 @@ pub fn parent_main(args: &Args, mode: Mode) -> ! {
             }
         }
         recs.sort_by_key(|r| (r["ii"].as_u64().unwrap_or(0), r["i"].as_u64().unwrap_or(0)));
+        digests.push(report::digest_records(recs.iter()));
         for mut rec in recs {
             ev.evaluations += 1;
             let kind = rec["kind"].as_str().unwrap_or("?").to_string();
@@ -884,6 +886,8 @@ pub fn parent_main(args: &Args, mode: Mode) -> ! {
         Mode::C05 => "same images; faults = every file position x masks on small images (sampled on large ones), seeded 2..512-byte zero/overwrite ranges, two-site flips; each case: full logical dump of the damaged file set in a child process compared leaf by leaf with the pristine dump; non-trivial = the fault changed a stored byte; distinct = distinct (image, fault)".to_string(),
         Mode::C06 => "same images; faults = every truncation length, byte flips, zero/overwrite ranges, appended/prepended garbage, empty file, random non-jubako file, file swapped with another file of the set; each case run in a child process in a release and in a debug(-assertions) build; outcome classes: value/error (ok), panic (hook), death by abort/signal, silence past the watchdog; non-trivial = the fault changed a stored byte; distinct = distinct (image, fault) over both profiles".to_string(),
     };
+    ev.extra.insert("run_digest".into(), json!(digests.join("-")));
+    println!("DIGEST {id} {}", digests.join("-"));
     ev.extra.insert("images".into(), json!(images_seen.len()));
     ev.extra.insert("image_list".into(), json!(images_seen.values().map(|v| json!({"image": v["image"], "desc": v["desc"], "bytes": v["bytes"], "faults": v["faults"], "layout": v["layout"]})).collect::<Vec<_>>()));
     ev.extra.insert("outcomes".into(), json!(outcome_counts));
